@@ -20,6 +20,8 @@ props.prop(
             'classification of old DataCollection records',
     not_decided='semantic drift of a key whose name is unchanged; objects generated at run time',
     assumptions=['registrations are made by the decorators at import time, in source order'])
+props.also('C12',
+           'that registry.disable restores the value it saved; the loaded layout of fields read by several loader versions (tuple vs single identifier)')
 
 SAVER_ONLY = {'glue.core.session.Session': 'repopulated by the application on load (saver writes {})'}
 STATE = 'glue.core.state'
